@@ -243,6 +243,13 @@ def r1(proj, rep):
             rep.ok('R1', q, 'rho legs (row: Q | col: chosen->fresh), op legs (fresh, chosen): Tr(rho O)', m, c)
         else:
             rep.undecided('R1', q, f'leg lists rho {_shape(dm_legs)}, op {_shape(op_legs)} not recognised', m, c)
+    else:
+        # no contraction of its own: delegating to a helper that treats the targets as a SET loses their order
+        pt = next((c for c in ast.walk(fi.node) if isinstance(c, ast.Call) and ast.unparse(c.func).endswith('partial_trace') and len(c.args) >= 3), None)
+        if pt is not None and any(isinstance(x, ast.Name) and x.id.startswith('index') for x in ast.walk(pt.args[2])):
+            n += 1
+            rep.violation('R1', q, f'`{ast.unparse(pt)[:80]}`: the ordered target tuple is passed as `keep_index` of partial_trace, which sorts it (a set): for non-ascending targets '
+                          f'the operator factors are paired with the wrong qubits (<Z_0 X_1> instead of <Z_1 X_0>)', m, pt)
     # control-subspace target relabelling: position of each target among the non-control qubits
     q = 'numqi.sim.state._control_n_index'
     fi = proj.func(q)
